@@ -17,39 +17,38 @@ attribute [local instance] ratPowStub
 
 /-- everything this file decides, evaluated once -/
 def tab2 : Bool :=
-  allDefectsShow Ref.c11AsIs && allDefectsShow Ref.c11Reinterned
-    && decide (defectCounts Ref.c11AsIs = [4, 1, 0, 2, 5, 5, 3, 1])
+  allDefectsShow Ref.c11AsIs
+    && decide (defectCounts Ref.c11AsIs = [0, 0, 0, 0, 3, 3, 3, 1])
     && (match restoreQ (liveCfg .pickleArray) wStale with | .ok y => y.unit.scale == 5 | .error _ => false)
     && wStale.unit.scale == 3
-    && !(guardQ (asIsCfg .pickleArray) wDeg) && guardQ (keepIdentity (asIsCfg .pickleArray)) wDelta
-    && !(guardQ (keepIdentity (asIsCfg .pickleArray)) wStale) && !(guardQ (keepIdentity (asIsCfg .deepcopyArray)) wModG)
+    && guardQ (asIsCfg .pickleArray) wDelta
+    && !(guardQ (asIsCfg .pickleArray) wStale) && !(guardQ (asIsCfg .pickleArray) wNoLb)
+    && !(guardQ (asIsCfg .registryJson) wCgs) && !(guardQ (asIsCfg .saveLoadTxt) wUser)
     && !(Dim.isBase3 (qQuantity 2 "km").unit.dim) && Dim.isBase3 wDeg.unit.dim && Dim.isBase3 wK.unit.dim
     && Dim.isBase3 wDB.unit.dim
 
 theorem tab2_decided : tab2 = true := by decide +kernel
 
-/-- the other defect classes of the present code, on both reference tables (the candidate fix
-    does not touch them): (`Δ°C` unreadable — no route any more); modified default symbol reset by deepcopy; removed
-    default symbol resurrected; `unit_system` lost; a unit created before `modify` rebound by
-    pickle; a user-defined unit unreadable from a text file -/
-theorem other_defects_show : allDefectsShow Ref.c11AsIs = true ∧ allDefectsShow Ref.c11Reinterned = true := by
+/-- the defect classes that remain in the present code: a removed default symbol is back after
+    pickle / JSON / text; `unit_system` is lost on those routes; a unit created before `modify` is
+    rebound wherever units travel by name; a user-defined unit is unreadable from a text file.
+    (No route any more loses dimension identity, sends an unreadable `Δ°C`, or resets a modified
+    default symbol: fixes acfd34f, C11-01, C11-02, C11-03.) -/
+theorem other_defects_show : allDefectsShow Ref.c11AsIs = true := by
   have h := tab2_decided
   simp only [tab2, Bool.and_eq_true] at h
-  exact ⟨h.1.1.1.1.1.1.1.1.1.1.1.1, h.1.1.1.1.1.1.1.1.1.1.1.2⟩
+  exact h.1.1.1.1.1.1.1.1.1.1.1.1
 
-/-- the classes above are not vacuous: number of routes each concerns in the as-is table
-    (identity of a carried unit, identity of table rows, display string, modified default, removed
-    default, unit system, unit rebound, user rows not carried) -/
-theorem defect_classes_inhabited : defectCounts Ref.c11AsIs = [4, 1, 0, 2, 5, 5, 3, 1] := by
+/-- number of routes each class concerns (identity of a carried unit, identity of table rows, display
+    string, modified default, removed default, unit system, unit rebound, user rows not carried) -/
+theorem defect_classes_inhabited : defectCounts Ref.c11AsIs = [0, 0, 0, 0, 3, 3, 3, 1] := by
   have h := tab2_decided
   simp only [tab2, Bool.and_eq_true, decide_eq_true_eq] at h
-  exact h.1.1.1.1.1.1.1.1.1.1.2
+  exact h.1.1.1.1.1.1.1.1.1.1.1.2
 
 /-- the same facts for the table regenerated from the live code -/
 theorem live_defects_show : allDefectsShow Generated.persistRoutes = true := by
-  rcases active_routes_classified with h | h <;> rw [h]
-  · exact other_defects_show.1
-  · exact other_defects_show.2
+  rw [active_routes_classified]; exact other_defects_show
 
 /-- the full statement is false of the faithful model: a quantity created BEFORE
     `reg.modify('vfoo', 5.0)` (base value 3.0) comes back from pickle with base value 5.0 -/
@@ -59,26 +58,26 @@ theorem C11_counterexample : ¬ C11_full := by
   have hx := h .pickleArray _ hc wStale
   have ht := tab2_decided
   simp only [tab2, Bool.and_eq_true, beq_iff_eq] at ht
-  have he := ht.1.1.1.1.1.1.1.1.1.2
-  have h3 := ht.1.1.1.1.1.1.1.1.2
+  have he := ht.1.1.1.1.1.1.1.1.1.1.2
+  have h3 := ht.1.1.1.1.1.1.1.1.1.2
   unfold restoreQ at he
   rw [hx] at he
   simp only [beq_iff_eq] at he
   rw [h3] at he
   exact absurd he (by decide)
 
-/-- the guards reject exactly the witnesses of the counterexamples (and, since the parser reads
-    `Δ°C`, accept `2 delta_degC` on the pickle route modulo identity) -/
+/-- the guard accepts `2 delta_degC` on the pickle route (the parser reads `Δ°C`) and rejects exactly
+    the witnesses of the remaining counterexamples -/
 theorem guards_reject_witnesses :
-    guardQ (asIsCfg .pickleArray) wDeg = false ∧ guardQ (keepIdentity (asIsCfg .pickleArray)) wDelta = true
-      ∧ guardQ (keepIdentity (asIsCfg .pickleArray)) wStale = false
-      ∧ guardQ (keepIdentity (asIsCfg .deepcopyArray)) wModG = false := by
+    guardQ (asIsCfg .pickleArray) wDelta = true ∧ guardQ (asIsCfg .pickleArray) wStale = false
+      ∧ guardQ (asIsCfg .pickleArray) wNoLb = false ∧ guardQ (asIsCfg .registryJson) wCgs = false
+      ∧ guardQ (asIsCfg .saveLoadTxt) wUser = false := by
   have h := tab2_decided
   simp only [tab2, Bool.and_eq_true, Bool.not_eq_true'] at h
-  exact ⟨h.1.1.1.1.1.1.1.2, h.1.1.1.1.1.1.2, h.1.1.1.1.1.2, h.1.1.1.1.2⟩
+  exact ⟨h.1.1.1.1.1.1.1.1.2, h.1.1.1.1.1.1.1.2, h.1.1.1.1.1.1.2, h.1.1.1.1.1.2, h.1.1.1.1.2⟩
 
-/-- the hypothesis of the `identity_loss_pinned_*` theorems is met by ordinary objects (2 km) and
-    is exactly what the three witnesses of `identity_loss_shows_asIs` violate (90°, 300 K, 3 dB) -/
+/-- the hypothesis of the `identity_loss_pinned_*` theorems is met by ordinary objects (2 km); 90°,
+    300 K, 3 dB are exactly outside it -/
 theorem pin_hypothesis_inhabited :
     Dim.isBase3 (qQuantity 2 "km").unit.dim = false ∧ Dim.isBase3 wDeg.unit.dim = true
       ∧ Dim.isBase3 wK.unit.dim = true ∧ Dim.isBase3 wDB.unit.dim = true := by
